@@ -30,14 +30,37 @@ class Base_encode_sub:
         return S.encode_outcome(validator, value)
 
 
+@contract('stone.backends.python_rsrc.stone_validators:Redactor.apply', properties=[], virtual=True, abstract=True,
+          virtual_for=[bv.HashRedactor, bv.BlotRedactor])
+class Redactor_apply:
+    """ASSUMED: the redactor bodies (regex search, md5, string joins) are outside the VC generator;
+    their result is the uninterpreted S.redact_apply(self, val)"""
+    params = {'self': OneOf(Obj(bv.HashRedactor), Obj(bv.BlotRedactor)), 'val': AnyVal()}
+
+    def expected(self, val):
+        return Ret(S.redact_apply(self, val))
+
+
 @contract(M + 'StoneToPythonPrimitiveSerializer.encode_sub', properties=PE + ['C13'], raises=[bv.ValidationError])
 class Prim_encode_sub:
+    """C13 (redaction hook): with redaction requested, the value of a validator that carries a redactor
+    never reaches the ordinary encoder -- the result is the redactor's output, element-wise for lists
+    and map values; without, the ordinary encoding"""
     params = {'self': SER, 'validator': ANY_VALIDATOR, 'value': AnyVal()}
 
     def requires(self, validator, value):
-        return _enc_requires(self, validator, value)
+        # Two cases are specified: no redaction requested (ordinary encoding, C05), and redaction requested
+        # on a validator that carries a redactor (the hook).  Redaction requested on a validator without one
+        # recurses into the ordinary encoders with should_redact set; the Enc specification of this revision
+        # has no redaction parameter, so that case is outside the contract (covered only by the bounded
+        # entry-point check of C13).
+        return (S.ctx_ok_r(self) and S.wf(validator) and S.enc_pre(validator, value)
+                and (self.should_redact is False
+                     or (hasattr(validator, '_redact') and S.redactor_ok(validator))))
 
     def expected(self, validator, value):
+        if self.should_redact and hasattr(validator, '_redact'):
+            return Ret(S.redacted(validator._redact, value))
         return S.encode_outcome(validator, value)
 
 
